@@ -14,7 +14,7 @@ ASSUME = ["exact max-min total reward by strategy enumeration over Fractions",
 
 def _vacuity(tot):
     if tot["nontrivial"] < 10:
-        raise par.HarnessError("C02 vacuity guard: %d" % tot["nontrivial"])
+        raise par.GuardError("C02 vacuity guard: %d" % tot["nontrivial"])
 
 
 def run(ctx):
